@@ -125,6 +125,16 @@ class Token:
             return self._content
         return self._token_type.name.lower()
 
+    def is_mark(self, *marks) -> bool:
+        # A punctuation mark, as opposed to a quoted string with the same text.
+        return (self._token_type is TokenTypes.MARK
+                and self._content in marks)
+
+    def is_word(self, word) -> bool:
+        # A keyword or operator word, as opposed to a quoted string.
+        return (not self.is_a(TokenTypes.LITERAL_STRING)
+                and self._content == word)
+
     def is_a(self, token_type) -> bool:
         return self._token_type is token_type
 
@@ -146,8 +156,8 @@ class Token:
     @property
     def is_binop(self):
         return (self.is_a(TokenTypes.COMPARE)
-                or self.content in '+-*/%^'
-                or self.content in ('and', 'or'))
+                or self.is_mark('+', '-', '*', '/', '%', '^')
+                or self.is_word('and') or self.is_word('or'))
 
     @property
     def line_number(self):
@@ -175,6 +185,6 @@ class Token:
 
     @property
     def assoc(self):
-        if self.content in ('not', '^'):
+        if self.is_word('not') or self.is_mark('^'):
             return Assoc.RIGHT
         return Assoc.LEFT
